@@ -1,8 +1,8 @@
 package main
 
 import (
-	"go/constant"
 	"fmt"
+	"go/constant"
 	"go/token"
 	"go/types"
 	"strings"
@@ -1097,6 +1097,5 @@ func mutantsC13() []Mutant {
 func bucketsField(set *types.Named) string {
 	return fieldByRole(set, "buckets", func(t types.Type) bool { _, ok := t.Underlying().(*types.Map); return ok }, nil)
 }
-
 
 func constantInt(k int64) constant.Value { return constant.MakeInt64(k) }
